@@ -3,6 +3,8 @@
 property is anchored in — used to test that the checks stay quiet on code where the property holds."""
 import json, sys
 pid = sys.argv[1]; wt = sys.argv[2]; n = sys.argv[3] if len(sys.argv) > 3 else '3'
+import glob
+K0 = len(glob.glob('/verif/harmless/%s-*' % pid))
 p = [json.loads(l) for l in open('/verif/properties.jsonl') if l.strip()]
 p = [x for x in p if x['id'] == pid][0]
 print(f"""You are testing whether a hidden verification suite for the Python library magenta/note-seq raises FALSE alarms. You work ONLY inside your own scratch git worktree of the repository at {wt} (already created; a detached checkout of the current code). Do NOT read or write anything under /verif, and do NOT modify /repo itself. Run Python as `cd {wt} && PYTHONPATH={wt} /venv/bin/python …` so that `import note_seq` picks up YOUR worktree (check once with `print(note_seq.__file__)`). NEVER use `git stash` (shared between worktrees); switch between clean and changed code with `git -C {wt} apply <patch>` / `git -C {wt} apply -R <patch>` / `git -C {wt} checkout -- .` only.
@@ -15,7 +17,9 @@ Here is a semantic property the library satisfies:
 
 Task: produce {n} DIFFERENT realistic, purely BEHAVIOUR-PRESERVING rewrites ("harmless refactorings") of the anchored code — the kind of edit a maintainer makes without intending any change: renaming local variables and private helpers; extracting a block into a private helper function or inlining one; replacing a for-loop that appends by a list comprehension (or the reverse); restructuring if/elif chains, early returns, guard clauses; replacing `a and not a & (a-1)`-style expressions by an equivalent expression that is EXACTLY equivalent on all ints; replacing magic numbers by named constants with the same value; reordering independent statements; adding type hints, docstrings, comments, logging; `dict.get` vs `in` tests; `sorted(x, key=…)` vs `x2 = list(x); x2.sort(key=…)` (both stable). Each rewrite should touch 5–40 lines in the anchored functions (not elsewhere) and must keep: every returned value, every raised exception class AND the point at which it is raised relative to side effects, every mutation (or absence of mutation) of arguments, the ORDER of floating-point operations (do not re-associate or distribute float arithmetic; `x / 60.0` must stay a division by 60.0, not a multiplication by a reciprocal), the iteration order of everything that is observable, all default argument values and public signatures. Do not add caches or module-level state.
 
-For each rewrite k = 1..{n}:
+Be adventurous within these rules: extract two or three private helpers in one rewrite (including helpers that fill a list or dict owned by the caller, or return tuples), use `try/except` instead of a membership test where exactly equivalent, lists of tuples instead of parallel lists, `setdefault`, hoisted module constants, split a long function in two, turn a nested function into a module-level private function (or the reverse), convert between `while` and `for`, between chained comparisons and `and`.
+
+For each rewrite k = {K0+1}..{K0+int(n)} (use exactly these numbers in the file names):
  1. Start from a clean worktree (`git -C {wt} checkout -- .`), make the edit, save it: `git -C {wt} diff > {wt}/refactor_{pid}_k.diff`.
  2. Write `{wt}/equiv_{pid}_k.py`: a differential test that imports the CLEAN code from /repo (as a second copy: e.g. `importlib` with a different sys.path entry in a subprocess, or run the same randomised inputs twice — once under PYTHONPATH=/repo and once under PYTHONPATH={wt} — and compare pickled/serialised outputs) on at least 2000 random and boundary inputs of the anchored functions, comparing results EXACTLY (bit-for-bit floats, exception classes, argument bytes after the call). It must exit 0 (equivalent). Run it; if it finds a difference, your rewrite is not harmless — fix or replace it.
  3. Run the existing test suite with the rewrite applied (WITHOUT -x): `cd {wt} && PYTHONPATH={wt} /venv/bin/python -m pytest -q -p no:cacheprovider --timeout=900 --continue-on-collection-errors 2>&1 | tail -3` must print exactly `11 failed, 321 passed` (11 tests fail on the clean tree already).
